@@ -1,10 +1,52 @@
-"""C15 — server-level property decided on event histories (see simcheck.py / simgen.py)."""
+"""C15 — 100-continue: server-level histories (simcheck.py / simgen.py) and, at receiver level, an application whose
+expect-continue handler answers later (so that continue_sent is not set at once)."""
 import simcheck
+import httpgen as G
+
+
+def deferred_expect(chk):
+    """requests with Expect: 100-continue and a body, cut anywhere; the application's handler defers its answer:
+    the receiver must report EXPECT_CONTINUE at most once per request however the body is fragmented"""
+    rng = chk.rng
+    cases, metas = [], []
+    for _ in range(120 if chk.tier == "quick" else 2500):
+        cfg = G.rand_cfg(rng)
+        cfg.xlate = rng.choice([2, 3])
+        m = None
+        while m is None:
+            m = G.gen_request(rng, cfg, body_kind=rng.choice(["cl", "cl", "chunked"]), expect=True)
+        data = m.bytes()
+        cc = m.cut_classes()
+        plist = [()] + G.partitions(rng, len(data), cc, "bytewise") + G.partitions(rng, len(data), cc, "structural1")[:40]
+        for _ in range(4):
+            plist += G.partitions(rng, len(data), cc, "random")
+        seen = set()
+        for cuts in plist:
+            if cuts in seen:
+                continue
+            seen.add(cuts)
+            cases.append(cfg.req_prefix() + " " + G.frag_arg(data, cuts))
+            metas.append(m)
+    pairs, diffs = chk.correspond("h_stream", cases, label="h_stream deferred expect-continue")
+    for c, mo, io in diffs[:20]:
+        chk.broken.append("correspondence h_stream(deferred expect): case `%s` model=%s impl=%s" % (c[:200], mo[:200], io[:200]))
+    for (c, mo, io), m in zip(pairs, metas):
+        p = G.parse_out(io)
+        if p is None:
+            chk.violation("receiver crashed on an Expect request: " + io[:160], {"case": c, "impl": io}, True, "memory-error-or-exception")
+            continue
+        nx = sum(1 for e in p[1] if e.startswith("X("))
+        if nx > 1:
+            chk.violation("EXPECT_CONTINUE reported %d times for one request (the application would send %d interim responses)" % (nx, nx),
+                          {"case": c, "impl": io[:600]}, True, "expect-continue-repeated")
+        if any(e.startswith("V(") for e in p[1]):
+            chk.count_distinct(c)
 
 
 def run(chk):
     chk.prove("Properties_C15")
     simcheck.run_sim(chk, flavour=FLAVOUR)
+    deferred_expect(chk)
 
 
 replay = simcheck.replay
